@@ -338,7 +338,7 @@ func (w *treeWorld) exec(r *Run, line string) {
 			if ft.hit {
 				if err == nil {
 					r.Emit(line, "ok")
-					r.Fail(fmt.Sprintf("AddLeaf swallowed a storage error at statement %d", k), cp())
+					r.Fail(fmt.Sprintf("[C07] AddLeaf swallowed a storage error at statement %d", k), cp())
 				} else {
 					r.Emit(line, "err fault")
 				}
@@ -358,7 +358,7 @@ func (w *treeWorld) exec(r *Run, line string) {
 			if ft.hit {
 				if err == nil {
 					r.Emit(line, "root "+hx(root[:]))
-					r.Fail(fmt.Sprintf("UpsertLeaf swallowed a storage error at statement %d and recorded root %s", k, root.Hex()), cp())
+					r.Fail(fmt.Sprintf("[C07,C08] UpsertLeaf swallowed a storage error at statement %d and recorded root %s", k, root.Hex()), cp())
 				} else {
 					r.Emit(line, "err fault")
 				}
@@ -395,7 +395,7 @@ func (w *treeWorld) exec(r *Run, line string) {
 		}
 		want := sparseRoot(w.sparse)
 		if want != root {
-			r.Fail(fmt.Sprintf("UpsertLeaf root %s differs from the reference sparse root %s after writing position %d", root.Hex(), want.Hex(), idx), cp())
+			r.Fail(fmt.Sprintf("[C08,C11] UpsertLeaf root %s differs from the reference sparse root %s after writing position %d", root.Hex(), want.Hex(), idx), cp())
 		}
 		w.pendUpd = append(w.pendUpd, updVersion{root: root, bn: bn, leaves: cpLeaves})
 	case "fab":
@@ -486,10 +486,10 @@ func (w *treeWorld) exec(r *Run, line string) {
 				return
 			}
 			if ok && (err != nil || rt.Hash != want) {
-				r.Fail(fmt.Sprintf("exit root for deposit count %d is %v (err=%v), the contract algorithm gives %s", i, rt.Hash.Hex(), err, want.Hex()), cp())
+				r.Fail(fmt.Sprintf("[C01,C07] exit root for deposit count %d is %v (err=%v), the contract algorithm gives %s", i, rt.Hash.Hex(), err, want.Hex()), cp())
 			}
 			if !ok && err == nil && !w.updUsed() {
-				r.Fail(fmt.Sprintf("a root is served for deposit count %d which no surviving block contains", i), cp())
+				r.Fail(fmt.Sprintf("[C01,C04] a root is served for deposit count %d which no surviving block contains", i), cp())
 			}
 		case "roothash":
 			h := common.BytesToHash(unhx(ws[2]))
@@ -539,7 +539,7 @@ func (w *treeWorld) exec(r *Run, line string) {
 				if w.refBroken {
 					return
 				}
-				r.Fail(fmt.Sprintf("proof/leaf lookup failed for covered position %d under root %s: %v %v", i, root.Hex(), err, err2), cp())
+				r.Fail(fmt.Sprintf("[C08,C07] proof/leaf lookup failed for covered position %d under root %s: %v %v", i, root.Hex(), err, err2), cp())
 				return
 			}
 			c := tree.CalculateRoot(l, p, uint32(i))
@@ -548,10 +548,10 @@ func (w *treeWorld) exec(r *Run, line string) {
 				return
 			}
 			if c != root {
-				r.Fail(fmt.Sprintf("proof for position %d does not verify against the root %s it was asked for (got %s)", i, root.Hex(), c.Hex()), cp())
+				r.Fail(fmt.Sprintf("[C08,C07] proof for position %d does not verify against the root %s it was asked for (got %s)", i, root.Hex(), c.Hex()), cp())
 			}
 			if l != wantLeaf {
-				r.Fail(fmt.Sprintf("leaf reported for position %d under root %s is %s, last written value as of that root is %s", i, root.Hex(), l.Hex(), wantLeaf.Hex()), cp())
+				r.Fail(fmt.Sprintf("[C08,C07] leaf reported for position %d under root %s is %s, last written value as of that root is %s", i, root.Hex(), l.Hex(), wantLeaf.Hex()), cp())
 			}
 		default:
 			r.Emit(line, "bad-op")
